@@ -302,6 +302,9 @@ pub fn install_quiet_panic_hook() {
         } else {
             "non-string panic payload".to_string()
         };
+        if std::env::var("HQMC_LOUD").is_ok() {
+            eprintln!("panic: {msg} @ {loc}");
+        }
         let _ = PANICS_SEEN.try_with(|c| {
             if let Ok(mut c) = c.try_borrow_mut() {
                 c.push((msg, loc.clone()));
